@@ -113,6 +113,7 @@ def run(cx):
     lexer_classes(cx)
     inheritance(cx)
     tables(cx, cn)
+    absolute_names(cx)
 
 
 # ------------------------------------------------------------------------------------------------ exemption facts
@@ -463,3 +464,38 @@ def tables(cx, cn):
             cx.check('C20.T2', ok, p, s.key(), 'embedded-name-resolved-against-origin',
                      'a domain name inside RDATA is parsed without the zone origin: a relative name stays relative instead of being completed with $ORIGIN (RFC 1035 5.1)', s.loc)
     cx.floor('C20.T2', nn, 10, 'domain names parsed inside from_tokens parsers')
+
+
+def absolute_names(cx):
+    """RFC 1035 5.1: "Domain names that end in a dot are called absolute ... names which do not end in a dot are called relative;
+    the actual domain name is the concatenation of the relative part with an origin".  In Name::from_encoded_str (behind Name::parse,
+    i.e. every owner, $ORIGIN and RDATA name of a zone file) the name is made absolute exactly when the text ended with an UNESCAPED
+    dot - which is when the label being collected is empty at the end of input - and the origin is appended exactly otherwise."""
+    f = cx.fn('C20.S2', P + 'rr::domain::name::Name::from_encoded_str')
+    if not f:
+        return
+    fq = [s_ for s_ in cx.calls(f, r'Name::set_fqdn$') if s_.term.endswith(',true)')]
+    final = [s_ for s_ in fq if not cx.has_guard(s_, r'^eq:str\(arg1,lit:"\."\)$|^eq\(arg1,lit:"\."\)$|^eq:.*lit:"\."')]
+    cx.check('C20.S2', len(final) == 1, f.path, 'calls', 'one-absolute-decision-besides-the-root-shortcut', f'{len(fq)} set_fqdn(true) calls, {len(final)} besides the root shortcut')
+    app = cx.calls(f, r'Name::append_domain$')
+    cx.check('C20.S2', len(app) == 1, f.path, 'calls', 'origin-appended-at-one-site', str(len(app)))
+    EMPTY = r'String::is_empty\(String::new\(\)\)'
+    for s_ in final[:1]:
+        if cx.has_guard(s_, '^' + EMPTY + '$'):
+            cx.oblige('C20.S2', True, sample={'fn': 'Name::from_encoded_str', 'site': s_.key(), 'guard': 'pending-label-empty', 'holds': True})
+            for a_ in app:
+                cx.guard('C20.S2', [a_], {'pending-label-not-empty-or-empty-input': '^!' + EMPTY + r'$|^str::is_empty\(arg1\)$', 'origin-given': r'^ok\(arg2\)$'}, fn=f)
+        else:
+            # a flag instead of the label test: then EVERY character pushed onto the label must reset it before the decision
+            flags = [x for x in (core.path_props(f, s_.bb) or []) if re.fullmatch(r'var\(\w+\)', shorten(x))]
+            pushes = cx.calls(f, r'String::push$')
+            ok = bool(flags)
+            if ok:
+                stores = {a_.bb for a_ in cx.assigns(f, r'^(true|false)$', place=None) if f.varname.get(f.blocks[a_.bb]['s'][a_.si][1]) == shorten(flags[0])[4:-1]} if hasattr(f, 'varname') else set()
+                ok = bool(stores)
+                for p_ in pushes:
+                    seen = cx.reach(f).run(edge_ok=lambda bb, t, ps: bb not in stores, start=f.succs(p_.bb)[0])
+                    if s_.bb in seen:
+                        ok = False
+            cx.check('C20.S2', ok, f.path, s_.key(), 'absolute-iff-the-text-ends-with-an-unescaped-dot',
+                     'the absolute/relative decision does not rest on the pending label being empty, and not every character pushed onto the label resets the flag it rests on instead', s_.loc)
